@@ -604,7 +604,7 @@ package commitlog
 //@   modifies nothing
 //@   ensures start == keyEndOf(m) && size == int32(be32(m, keyEndOf(m))) && (size >= -1 ==> end == valEndOf(m))
 //@ func (SerializedMessage).Headers serves C01, C14
-//@   requires wfStored(m)
+//@   assumes wfStored(m)
 //@   safety
 //@   loop 1 invariant i <= numHeaders && int(numHeaders) == int(be16(m, valEndOf(m))) && n == hdrPos(m, int(i)) && n >= 0 && n <= len(m)
 
